@@ -74,6 +74,7 @@ type State struct {
 	globals map[*ssa.Global]string
 	ghost   map[string]string
 	alloc   string
+	captured map[*ssa.Alloc]bool // local variables captured by a closure created on this path
 	defers  []deferred
 	// paramMode: heap lookups return parameter names and are recorded (spec function bodies)
 	paramHeaps *[]string
@@ -99,6 +100,12 @@ func (s *State) clone() *State {
 		n.ghost[k] = v
 	}
 	n.defers = append([]deferred{}, s.defers...)
+	if s.captured != nil {
+		n.captured = map[*ssa.Alloc]bool{}
+		for k, v := range s.captured {
+			n.captured[k] = v
+		}
+	}
 	return n
 }
 
